@@ -177,10 +177,48 @@ def run_cases(cps, name, jobs=16):
     return dis, nontriv, dist
 
 
+def nodense_worker(cfg):
+    """shooting with a CasADi integrator has no dense output: refined sampling must raise, never return made-up
+    (NaN) values"""
+    from ..common import setup_rockit_path
+    rockit = setup_rockit_path()
+    import io, contextlib
+    import casadi as ca
+    out = {}
+    try:
+        with contextlib.redirect_stdout(io.StringIO()), contextlib.redirect_stderr(io.StringIO()):
+            ocp = rockit.Ocp(T=1)
+            x = ocp.state(); z = ocp.algebraic(); u = ocp.control()
+            ocp.set_der(x, -x + z + u)
+            ocp.add_alg(z - 2 * x)
+            ocp.add_objective(ocp.integral(u ** 2))
+            ocp.subject_to(ocp.at_t0(x) == 1)
+            M_ = rockit.MultipleShooting if cfg["method"] == "MS" else rockit.SingleShooting
+            ocp.method(M_(N=2, M=cfg["M"], intg=cfg["intg"]))
+            ocp.solver("ipopt", {"ipopt.print_level": 0, "print_time": False})
+            e = {"z": z, "x": x, "zx": z * x}[cfg["what"]]
+            _, v = ocp.sample(e, grid="integrator", refine=cfg["refine"])
+            opti = ocp._method.opti
+            val = np.array(ca.Function("f", [opti.x, opti.p], [v])(np.ones(opti.x.numel()), opti.debug.value(opti.p, opti.initial()))).reshape(-1)
+            out["values"] = [float(a) for a in val]
+    except Exception as e_:
+        out["raised"] = "%s: %s" % (type(e_).__name__, str(e_)[:120])
+    return out
+
+
 def run(tier="quick", seed=0, jobs=16):
     n = 100 if tier == "quick" else 1000
     cps = corpus() + gen_cases(seed, n, OPTS if tier == "quick" else dict(OPTS, N_max=5, M_max=4, deg_max=5), 2 if tier == "quick" else 4)
     dis, nontriv, dist = run_cases(cps, "C08", jobs)
+    nod = [{"method": m, "intg": i, "what": w, "M": 1 + (k % 2), "refine": 2 + k % 3}
+           for k, (m, i, w) in enumerate([(m, i, w) for m in ("MS", "SS") for i in ("collocation", "idas") for w in ("z", "x", "zx")])]
+    with mp.get_context("fork").Pool(min(jobs, len(nod))) as pool:
+        rn = pool.map(nodense_worker, nod, chunksize=1)
+    for cfg, r in zip(nod, rn):
+        dist["no-dense-output/%s" % cfg["intg"]] = dist.get("no-dense-output/%s" % cfg["intg"], 0) + 1
+        if "values" in r and any(not math.isfinite(a) for a in r["values"]):
+            dis.append({"property": "C08", "case": cfg, "points": [], "finding_key": None,
+                        "what": [{"what": "refined sampling without a dense output returned non-finite values instead of raising", "values": r["values"][:8]}]})
     return {"evaluations": len(cps), "distinct_nontrivial": len(nontriv),
             "rule": "random OCPs x {MS,SS with rk / expl_euler, DC degree 1..4(5) radau|legendre} x N,M x uniform and "
                     "non-uniform grids; sample(e, grid='integrator', refine=1..7) for 1-3 (vector) expressions of states, "
